@@ -13,7 +13,7 @@ import (
 // tail and the settle phase. A director that does not reach its shape is
 // still a valid schedule for the safety monitors.
 
-var directorNames = []string{"figure8", "deposed-leader", "conf-both-sides", "snapshot-laggard", "unapplied-conf-restart", "transfer-laggard", "revote-after-restart", "stale-snapshot", "removenode-replay"}
+var directorNames = []string{"figure8", "deposed-leader", "conf-both-sides", "snapshot-laggard", "unapplied-conf-restart", "transfer-laggard", "revote-after-restart", "stale-snapshot", "removenode-replay", "vote-after-term-bump", "conf-behind-backlog"}
 
 func directorConfig(name string, rng *rand.Rand) SimConfig {
 	c := SimConfig{ElectionTick: 10, HeartbeatTick: 1, MaxInflight: 256, MaxSizePerMsg: 1 << 20, MaxCommittedSize: 1 << 20}
@@ -47,6 +47,12 @@ func directorConfig(name string, rng *rand.Rand) SimConfig {
 		c.Storage = "mem" // RocksStorage has no catch-up window behind its newest snapshot
 	case "removenode-replay":
 		c.Voters = 1
+	case "vote-after-term-bump":
+		c.Voters = []int{3, 3, 5}[rng.Intn(3)]
+		c.PreVote, c.CheckQuorum = true, true
+	case "conf-behind-backlog":
+		c.Voters = 3
+		c.MaxSizePerMsg = []uint64{64, 64, 200}[rng.Intn(3)]
 	}
 	return c
 }
@@ -238,6 +244,10 @@ func runDirector(name string, s *Sim, rng *rand.Rand) bool {
 		return d.staleSnapshot()
 	case "removenode-replay":
 		return d.removeNodeReplay()
+	case "vote-after-term-bump":
+		return d.voteAfterTermBump()
+	case "conf-behind-backlog":
+		return d.confBehindBacklog()
 	}
 	return false
 }
@@ -1149,5 +1159,254 @@ func (d *director) removeNodeReplay() bool {
 	s.Do(act("heal", 0))
 	d.rounds(10)
 	d.tail(200)
+	return true
+}
+
+// voteAfterTermBump separates the term bump and the vote of a replica into two
+// Readys: the old leader learns the new term from a higher-term MsgAppResp
+// (follower of T+1, Vote=None, persisted), only then the delayed MsgVote of
+// the first candidate arrives (only Vote changes), the voter crashes and
+// restarts, and the delayed MsgVote of the second candidate of the same term
+// arrives. PreVote + CheckQuorum (the production setting).
+func (d *director) voteAfterTermBump() bool {
+	s := d.s
+	if !d.proloqueOK() {
+		return false
+	}
+	l := s.leader()
+	if l == nil || s.Done() {
+		return true
+	}
+	d.propose(l.id, d.rng.Intn(3))
+	d.rounds(3)
+	if l = s.leader(); l == nil || s.Done() {
+		d.tail(200)
+		return true
+	}
+	L := l.id
+	rest := d.others(L)
+	d.rng.Shuffle(len(rest), func(i, j int) { rest[i], rest[j] = rest[j], rest[i] })
+	a, b := rest[0], rest[1]
+	ra, rb, rl := s.rep(a), s.rep(b), s.rep(L)
+	// the leader's clock stands still (it is cut off: nothing it sends arrives);
+	// the others' leases run out
+	for _, id := range rest {
+		d.tick(id, s.cfg.ElectionTick)
+	}
+	d.pump(func(f *flight) int { return vDrop }, 400)
+	for try := 0; try < 3 && !s.Done(); try++ {
+		if ra.role != raft.StateCandidate {
+			s.Do(act("camp", a))
+			d.ready(a)
+		}
+		if rb.role != raft.StateCandidate {
+			s.Do(act("camp", b))
+			d.ready(b)
+		}
+		d.pump(func(f *flight) int {
+			switch f.m.Type {
+			case pb.MsgPreVote, pb.MsgPreVoteResp:
+				if f.m.To == L || f.m.From == L {
+					return vDrop
+				}
+				return vDeliver
+			case pb.MsgVote:
+				return vKeep
+			}
+			return vDrop
+		}, 400)
+		if ra.role == raft.StateCandidate && rb.role == raft.StateCandidate {
+			break
+		}
+	}
+	if s.Done() {
+		return true
+	}
+	if ra.role != raft.StateCandidate || rb.role != raft.StateCandidate || ra.term != rb.term || rl.role != raft.StateLeader || rl.term+1 != ra.term {
+		d.pump(deliverAll, 300)
+		d.tail(300)
+		return true
+	}
+	// the vote requests for the old leader are delayed; the rest is lost
+	var va, vb int
+	for _, f := range s.net {
+		if f.m.Type == pb.MsgVote && f.m.To == L {
+			h := act("hold", 0)
+			h.ID = f.id
+			s.Do(h)
+			if f.m.From == a {
+				va = f.id
+			} else if f.m.From == b {
+				vb = f.id
+			}
+		}
+	}
+	d.pump(func(f *flight) int { return vDrop }, 200)
+	if va == 0 || vb == 0 {
+		s.Do(act("release", 0))
+		d.pump(deliverAll, 300)
+		d.tail(300)
+		return true
+	}
+	// a heartbeat of the old leader reaches candidate A; A's answer carries the
+	// new term and makes the old leader a follower of T+1 with Vote=None
+	d.tick(L, 1)
+	d.pump(func(f *flight) int {
+		if (f.m.From == L && f.m.To == a) || (f.m.From == a && f.m.To == L) {
+			return vDeliver
+		}
+		return vDrop
+	}, 50)
+	if s.Done() {
+		return true
+	}
+	if rl.role != raft.StateFollower || rl.term != ra.term || rl.hsCur.Vote != 0 {
+		s.Do(act("release", 0))
+		d.pump(deliverAll, 300)
+		d.tail(300)
+		return true
+	}
+	d.reached("vote-after-term-bump")
+	// now, in a batch of its own, the delayed MsgVote of A: only Vote changes
+	deliverHeld := func(id int) {
+		rl := act("release", 0)
+		rl.ID = id
+		s.Do(rl)
+		dl := act("deliver", 0)
+		dl.ID = id
+		s.Do(dl)
+	}
+	deliverHeld(va)
+	rd := act("ready", L)
+	mode := d.rng.Intn(3)
+	if mode == 1 {
+		rd.P, rd.M = 6, ^uint64(0) // everything sent, crash before Advance
+	}
+	s.Do(rd)
+	if mode != 2 {
+		// A may win with this vote
+		d.pump(func(f *flight) int {
+			if f.m.Type == pb.MsgVoteResp && f.m.To == a {
+				return vDeliver
+			}
+			return vKeep
+		}, 50)
+	}
+	if rl.alive {
+		s.Do(act("crash", L))
+	}
+	rs := act("restart", L)
+	rs.A = uint64(d.rng.Intn(2))
+	s.Do(rs)
+	d.ready(L)
+	// the second candidate of the same term asks the restarted voter
+	deliverHeld(vb)
+	d.ready(L)
+	d.pump(func(f *flight) int {
+		if f.m.Type == pb.MsgVoteResp {
+			return vDeliver
+		}
+		return vKeep
+	}, 50)
+	d.pump(deliverAll, 400)
+	d.rounds(5)
+	d.tail(250)
+	return true
+}
+
+// confBehindBacklog: a replica with a busy state machine (StepNode with
+// moreEntriesToApply=false) holds two committed membership changes behind
+// more than MaxSizePerMsg bytes of committed, unapplied entries: it still
+// runs the two-changes-old configuration while the leader already commits
+// alone. Its election timer fires next to an equally stale, cut-off replica.
+func (d *director) confBehindBacklog() bool {
+	s := d.s
+	if !d.proloqueOK() {
+		return false
+	}
+	l := s.leader()
+	if l == nil || s.Done() {
+		return true
+	}
+	d.rounds(3)
+	if l = s.leader(); l == nil || s.Done() {
+		d.tail(200)
+		return true
+	}
+	L := l.id
+	o := d.others(L)
+	p, slow := o[0], o[1]
+	if d.rng.Intn(2) == 0 {
+		p, slow = slow, p
+	}
+	rs := s.rep(slow)
+	stillLeader := func() bool { cl := s.leader(); return cl != nil && cl.id == L && !s.Done() }
+	d.partition([]uint64{p})
+	na := act("noapply", slow)
+	na.A = 1
+	s.Do(na)
+	both := []uint64{L, slow}
+	// a backlog of ordinary entries, larger than MaxSizePerMsg
+	for k := 0; k < 6+d.rng.Intn(5) && stillLeader(); k++ {
+		a := act("prop", L)
+		a.A = uint64(30 + d.rng.Intn(40))
+		s.Do(a)
+		d.ready(L)
+	}
+	d.pump(deliverAll, 400)
+	d.sideTicks(both, 1)
+	// two successive removals shrink the group to the leader alone
+	for _, victim := range []uint64{p, slow} {
+		if !stillLeader() {
+			break
+		}
+		c := act("conf", L)
+		c.A, c.B = uint64(pb.ConfChangeRemoveNode), victim
+		s.Do(c)
+		d.ready(L)
+		d.pump(deliverAll, 400)
+		d.sideTicks(both, 1)
+	}
+	if !stillLeader() || len(l.app.conf.Nodes) != 1 || !rs.alive {
+		s.Do(act("heal", 0))
+		un := act("noapply", slow)
+		s.Do(un)
+		d.rounds(5)
+		d.tail(250)
+		return true
+	}
+	// the leader goes on alone
+	d.propose(L, 2+d.rng.Intn(3))
+	d.tick(L, 2)
+	if rs.hsCur.Commit > rs.app.applied {
+		d.reached("conf-behind-backlog")
+	}
+	// the two stale replicas can talk to each other but not to the leader;
+	// their clocks run: leases expire, election timers fire
+	d.partition([]uint64{L})
+	stale := []uint64{slow, p}
+	pBusy := d.rng.Intn(3) != 0
+	if pBusy {
+		// the cut-off replica's applier is busy as well: it persists and
+		// acknowledges, but does not get to apply its own removal yet
+		nb := act("noapply", p)
+		nb.A = 1
+		s.Do(nb)
+	}
+	d.sideTicks(stale, 4*s.cfg.ElectionTick+d.rng.Intn(s.cfg.ElectionTick))
+	if nl := s.leader(); nl != nil && nl.id != L {
+		d.propose(nl.id, 1+d.rng.Intn(2))
+		d.sideTicks(stale, 3)
+	}
+	d.propose(L, 1)
+	d.tick(L, 1)
+	un := act("noapply", slow)
+	s.Do(un)
+	if pBusy {
+		s.Do(act("noapply", p))
+	}
+	s.Do(act("heal", 0))
+	d.rounds(8)
+	d.tail(250)
 	return true
 }
